@@ -130,6 +130,10 @@ def enginesExcl (ps : PState) (toks : List String) : List String × Bool :=
     let mism := a.eng != .std && !(a.requiresIterator || b.requiresIterator) &&
       (!shapeEq a.shape b.shape || a.ap.o.col != b.ap.o.col)
     let reuse := (toks.find? (·.startsWith "reuse=")).bind (fun t => (ps.obj (t.drop 6).toString).map (·.2))
+    -- the incr destination's data order is not looked at either (its raw storage is incremented)
+    let incrD := (toks.find? (·.startsWith "incr=")).bind (fun t => (ps.obj (t.drop 5).toString).map (·.2))
+    let mism := mism || (a.eng != .std && !(a.requiresIterator || b.requiresIterator) &&
+      (match incrD with | some d => d.ap.o.col != a.ap.o.col && a.win.len != 1 | none => false))
     ((if mism then ["F37"] else []) ++ (if Excl_reuseOrderFlip a reuse then ["F35"] else []), true)
   | some "fma", a :: rest =>
     let mism := a.eng != .std && rest.any (fun t => !shapeEq a.shape t.shape || t.ap.o.col != a.ap.o.col)
